@@ -356,6 +356,7 @@ func (s *Store[K, V]) GetWithSecodary(key K) (V, bool, error) {
 }
 
 func (s *Store[K, V]) policyNewEntry(hash uint64, shard *Shard[K, V], cost int64, entry *Entry[K, V], fromNVM bool) {
+	verifPoint(vpBeforeEvent)
 	s.writeChan <- WriteBufItem[K, V]{
 		code: NEW, entry: entry, hash: hash, fromNVM: fromNVM, costChange: cost,
 	}
@@ -366,6 +367,7 @@ func (s *Store[K, V]) policyUpdateEntry(entry *Entry[K, V], hash uint64, cost, o
 	// send cost change in event and apply them to entry policy weight
 	// so different order still works.
 	costChange := cost - old
+	verifPoint(vpBeforeEvent)
 	s.writeChan <- WriteBufItem[K, V]{
 		entry: entry, code: UPDATE, costChange: costChange, rechedule: reschedule,
 		hash: hash,
@@ -496,6 +498,7 @@ func (s *Store[K, V]) Delete(key K) {
 	}
 	shard.mu.Unlock()
 	if ok {
+		verifPoint(vpBeforeEvent)
 		s.writeChan <- WriteBufItem[K, V]{entry: entry, code: REMOVE, hash: h}
 	}
 }
@@ -517,6 +520,7 @@ func (s *Store[K, V]) DeleteWithSecondary(key K) error {
 	}
 	shard.mu.Unlock()
 	if ok {
+		verifPoint(vpBeforeEvent)
 		s.writeChan <- WriteBufItem[K, V]{entry: entry, code: REMOVE}
 	}
 	return nil
@@ -563,6 +567,7 @@ func (s *Store[K, V]) removeEntry(entry *Entry[K, V], reason RemoveReason) {
 	if reason == EXPIRED {
 		// entry might updated already
 		// update expire filed are protected by shard mutex
+		verifPoint(vpExpireRecheck)
 		if entry.expire.Load() > s.timerwheel.clock.NowNano() {
 			return
 		}
@@ -590,6 +595,7 @@ func (s *Store[K, V]) removeEntry(entry *Entry[K, V], reason RemoveReason) {
 					reason: reason,
 					shard:  shard,
 				}:
+					verifPoint(vpSecEnq)
 					return
 				default:
 				}
@@ -918,6 +924,7 @@ func (s *Store[K, V]) processSecondary() {
 			item.shard.mu.RUnlock(tk)
 			if err != nil {
 				s.secondaryCache.HandleAsyncError(err)
+				verifPoint(vpSecDone)
 				continue
 			}
 			if item.reason == EVICTED {
@@ -933,6 +940,7 @@ func (s *Store[K, V]) processSecondary() {
 		} else {
 			item.shard.mu.RUnlock(tk)
 		}
+		verifPoint(vpSecDone)
 	}
 }
 
